@@ -116,13 +116,10 @@ theorem all_isNumber_nativeL : ∀ {l : List PyVal}, l.all isNumber = true → P
     simp only [List.all_cons, Bool.and_eq_true] at h
     simp [PyVal.jsonNativeL, isNumber_native h.1, all_isNumber_nativeL h.2]
 
-theorem yearDigits_eq_four {y : Nat} (h1 : 1000 ≤ y) (h2 : y ≤ 9999) : yearDigits y = 4 := by
+theorem yearDigits_eq_four {y : Nat} (h : y ≤ 9999) : yearDigits y = 4 := by
   unfold yearDigits
-  have a : ¬ y < 10 := by omega
-  have b : ¬ y < 100 := by omega
-  have c : ¬ y < 1000 := by omega
   have d : y < 10000 := by omega
-  simp [a, b, c, d]
+  simp [d]
 
 /-- the parameter types that inherit `Parameter.serialize` / `Parameter.deserialize` -/
 def PCfg.isIdentity : PCfg → Bool
@@ -300,15 +297,37 @@ theorem validate_nullable (s j : Json) : validate (nullable s) j = (validate s j
 theorem Num.json_num (n : Num) : n.json.num? = some n.fl := by
   cases n <;> rfl
 
-theorem validate_numberSchema (t : String) (b : Bounds) (j : Json) (x : Fl) (hx : j.num? = some x) :
+theorem Fl.le_negInf_fin {x : Fl} (h : x.isFinite = true) : Fl.le .negInf x = true ∧ Fl.lt .negInf x = true ∧
+    Fl.le x .posInf = true ∧ Fl.lt x .posInf = true := by
+  cases x <;> simp [Fl.isFinite] at h <;> simp [Fl.le, Fl.lt]
+
+/-- for a finite JSON number the bounds keywords say exactly `Bounds.contains`
+(a skipped `-inf` / `+inf` bound constrains no finite number) -/
+theorem validate_numberSchema (t : String) (b : Bounds) (j : Json) (x : Fl) (hx : j.num? = some x)
+    (hfin : x.isFinite = true) :
     validate (numberSchema t b) j = (hasType t j && b.contains x) := by
+  obtain ⟨f1, f2, f3, f4⟩ := Fl.le_negInf_fin hfin
+  have negInf_fl : ∀ l : Num, l.isNegInf = true → l.fl = .negInf := by
+    intro l h; cases l with
+    | int _ => simp [Num.isNegInf] at h
+    | float y => cases y <;> simp [Num.isNegInf] at h <;> rfl
+  have posInf_fl : ∀ l : Num, l.isPosInf = true → l.fl = .posInf := by
+    intro l h; cases l with
+    | int _ => simp [Num.isPosInf] at h
+    | float y => cases y <;> simp [Num.isPosInf] at h <;> rfl
   unfold numberSchema declareNumericBounds Bounds.contains
   rcases b with ⟨range, il, ih⟩
   rcases range with _ | ⟨lo, hi⟩
   · simp [validate, validateKws, jstr]
-  · rcases lo with _ | lo <;> rcases hi with _ | hi <;> cases il <;> cases ih <;>
-      simp [validate, validateKws, jstr, numKw, hx, Num.json_num, Bool.and_comm]
-
+  · rcases lo with _ | lo <;> rcases hi with _ | hi
+    · simp [validate, validateKws, jstr]
+    · by_cases hp : hi.isPosInf = true <;> cases ih <;>
+        simp [validate, validateKws, jstr, numKw, hx, Num.json_num, hp, posInf_fl, f3, f4]
+    · by_cases hn : lo.isNegInf = true <;> cases il <;>
+        simp [validate, validateKws, jstr, numKw, hx, Num.json_num, hn, negInf_fl, f1, f2]
+    · by_cases hn : lo.isNegInf = true <;> by_cases hp : hi.isPosInf = true <;> cases il <;> cases ih <;>
+        simp [validate, validateKws, jstr, numKw, hx, Num.json_num, hn, hp, negInf_fl, posInf_fl,
+          f1, f2, f3, f4, Bool.and_comm]
 
 theorem dumpsL_length : ∀ (l : List PyVal) (js : List Json), dumpsL l = .ok js → js.length = l.length
   | [], js, h => by simp [dumpsL] at h; subst h; rfl
@@ -490,28 +509,36 @@ def Num.isFinite : Num → Bool
   | .int _ => true
   | .float x => x.isFinite
 
-/-- the declared bounds are finite numbers -/
-def Bounds.finite (b : Bounds) : Bool :=
+/-- every bound that `declare_numeric_bounds` writes into the schema is a finite number:
+the lower bound is not `+inf` / `nan`, the upper bound is not `-inf` / `nan`
+(`-inf` below and `+inf` above are skipped by the code) -/
+def Bounds.emittedFinite (b : Bounds) : Bool :=
   match b.range with
   | none => true
   | some (lo, hi) =>
-    (match lo with | some l => l.isFinite | none => true) &&
-    (match hi with | some h => h.isFinite | none => true)
+    (match lo with | some l => l.isNegInf || l.isFinite | none => true) &&
+    (match hi with | some h => h.isPosInf || h.isFinite | none => true)
 
 theorem Num.json_finite {n : Num} (h : n.isFinite = true) : isFiniteNumber n.json = true := by
   cases n
   · rfl
   · simpa [Num.isFinite, Num.json, isFiniteNumber] using h
 
-theorem wellFormed_numberSchema (t : String) (b : Bounds) (ht : knownType t = true) (hb : b.finite = true) :
-    wellFormed (numberSchema t b) = true := by
+theorem wellFormed_numberSchema (t : String) (b : Bounds) (ht : knownType t = true)
+    (hb : b.emittedFinite = true) : wellFormed (numberSchema t b) = true := by
   unfold numberSchema declareNumericBounds
   rcases b with ⟨range, il, ih⟩
   rcases range with _ | ⟨lo, hi⟩
   · simp [wellFormed, wellFormedKws, jstr, ht]
-  · rcases lo with _ | lo <;> rcases hi with _ | hi <;> cases il <;> cases ih <;>
-      simp [Bounds.finite] at hb <;>
-      simp [wellFormed, wellFormedKws, jstr, ht, Num.json_finite, hb]
+  · rcases lo with _ | lo <;> rcases hi with _ | hi
+    · simp [wellFormed, wellFormedKws, jstr, ht]
+    · by_cases hp : hi.isPosInf = true <;> cases ih <;> simp [Bounds.emittedFinite, hp] at hb <;>
+        simp [wellFormed, wellFormedKws, jstr, ht, hp, Num.json_finite, hb]
+    · by_cases hn : lo.isNegInf = true <;> cases il <;> simp [Bounds.emittedFinite, hn] at hb <;>
+        simp [wellFormed, wellFormedKws, jstr, ht, hn, Num.json_finite, hb]
+    · by_cases hn : lo.isNegInf = true <;> by_cases hp : hi.isPosInf = true <;> cases il <;> cases ih <;>
+        simp [Bounds.emittedFinite, hn, hp] at hb <;>
+        simp [wellFormed, wellFormedKws, jstr, ht, hn, hp, Num.json_finite, hb]
 
 theorem wellFormed_atom (a : ClassAtom) : wellFormed a.schema = true := by
   cases a <;> simp [ClassAtom.schema, wellFormed_typeObj, knownType]
@@ -606,6 +633,7 @@ theorem baseSchema_obj (p : Param) (s : Json) (hs : p.baseSchema = .ok s) : ∃ 
     simp only [selectorSchema] at hs
     split at hs
     · simp at hs; exact ⟨_, hs.symm⟩
+    · simp at hs; exact ⟨_, hs.symm⟩
     · split at hs <;> simp at hs; exact ⟨_, hs.symm⟩
   case listSelector objs =>
     simp only [listSelectorSchema] at hs
@@ -640,7 +668,7 @@ theorem schema_obj (p : Param) (s : Json) (hs : p.schema = .ok s) : ∃ kvs, s =
   · rename_i s0 hs0
     simp only [Except.ok.injEq] at hs; subst hs
     obtain ⟨kvs, rfl⟩ := baseSchema_obj p s0 hs0
-    cases p.effAllowNone
+    cases p.schemaNullable
     · exact ⟨kvs, rfl⟩
     · exact ⟨_, rfl⟩
 
